@@ -243,6 +243,55 @@ def fault_job(arg):
     return rep
 
 
+def reads_earlier_str_ascii():
+    # a kept function that loads paths committed by earlier sessions
+    return ("reads", dds.load("/hand/full_str_ascii"), dds.load("/hand/links_str_ascii"))
+
+
+def reads_earlier_nested():
+    return ("reads", dds.load("/hand/full_nested"), dds.load("/hand/links_nested"))
+
+
+def handover_job(arg):
+    """Directories on which earlier sessions committed paths with 'full' and 'links_only' are opened with each commit
+    type in turn: the records are there, so loads (direct and inside a kept function) work under every type; a store
+    with commit type 'none' writes nothing under the data directory."""
+    tag, later = arg
+    import dds
+    from vp.fakedbutils import FakeDbutils
+
+    rep = core.Report("C19")
+    rep.evaluations = 1
+    dds.accept_module("checks")
+    case = {"handover": True, "tag": tag, "later": later}
+    want = produce_a(tag)
+    with core.Scratch("vp_c19h_") as root:
+        for ct, pth in (("full", "/hand/full_" + tag), ("links_only", "/hand/links_" + tag)):
+            dds.set_store("dbfs", internal_dir="dbfs:/int", data_dir="dbfs:/data", dbutils=FakeDbutils(root), commit_type=ct)
+            dds.keep(pth, produce_a, tag)
+        before = SM.walk(os.path.join(root, "dbfs", "data"))
+        dds.set_store("dbfs", internal_dir="dbfs:/int", data_dir="dbfs:/data", dbutils=FakeDbutils(root), commit_type=later)
+        for pth in ("/hand/full_" + tag, "/hand/links_" + tag):
+            rep.count("loads")
+            try:
+                v = dds.load(pth)
+                if not SM.values_equal(v, want):
+                    rep.violate("store opened with commit_type=%r on directories of earlier sessions: load(%s) gives %r" % (later, pth, v), case, mechanism="earlier-record-not-served")
+            except BaseException as e:
+                rep.violate("store opened with commit_type=%r on directories of earlier sessions: load(%s) raised %s: %s (the record exists)" % (later, pth, type(e).__name__, str(e)[:120]), case, mechanism="earlier-record-not-served")
+        rep.count("keeps")
+        try:
+            v = dds.keep("/hand/reader_" + tag, {"str_ascii": reads_earlier_str_ascii, "nested": reads_earlier_nested}[tag])
+            if not SM.values_equal(v, ("reads", want, want)):
+                rep.violate("commit_type=%r: a kept function that loads paths of earlier sessions returned %r" % (later, v), case, mechanism="earlier-record-not-served")
+        except BaseException as e:
+            rep.violate("commit_type=%r: keep of a function that loads paths of earlier sessions raised %s: %s" % (later, type(e).__name__, str(e)[:120]), case, mechanism="earlier-record-not-served")
+        if later == "none" and SM.walk(os.path.join(root, "dbfs", "data")) != before:
+            rep.violate("a store with commit type 'none' changed the data directory", case, mechanism="none-commit-wrote-data")
+    rep.nontriv(("handover", tag, later))
+    return rep
+
+
 LEGACY = {"str": "dbfs.string", "bytes": "dbfs.bytes", "pickle": "dbfs.pickle"}
 
 
@@ -328,7 +377,13 @@ def run(tier, seed):
         jobs.append(("fork", (None, ["str_ascii", "str_nonascii", "nested"], ct)))
     jobs.append(("fork", (2, ["bytes_plain", "obj"], "full")))
 
+    for later in ("none", "links_only", "full"):
+        for tag in ("str_ascii", "nested"):
+            jobs.append(("handover", (tag, later)))
+
     def dispatch(j):
+        if j[0] == "handover":
+            return handover_job(j[1])
         if j[0] == "fork":
             from checks import c17
 
@@ -353,6 +408,9 @@ def replay(payload):
     c = payload["case"]
     if c.get("fault"):
         rep.merge(fault_job((c["commit_type"], c["tag"], c["second_handle"])))
+        return rep
+    if c.get("handover"):
+        rep.merge(handover_job((c["tag"], c["later"])))
         return rep
     if c.get("fork"):
         from checks import c17
